@@ -301,6 +301,7 @@ int SimulateZ80::get_reg_id(const char * reg_string)
     {
       break;
     }
+    if (ndx >= (int)sizeof(rstr) - 1) { return -1; }
     rstr[ndx++] = *reg_string;
     ++reg_string;
   }
